@@ -31,6 +31,9 @@ inductive Ev
   | dumpUp (srv life term role commit applied last leader snapIdx : Nat) (log : List (Nat × Nat × Nat × Nat)) (state : List Nat)
   | leaderCh (srv life : Nat) (last : Option Bool) (isLeader : Bool)
   | noPreVote (srv : Nat)
+  | electedAs (srv life : Nat) (voter : Bool) (cfgIdx start : Nat) (startKnown : Bool)
+  | majority (t stopped : Nat) (ok : Bool)
+  | rejoin (srv t0 leader0 term0 t1 leader1 term1 : Nat)
   | shutdownHung (srv life : Nat)
 deriving Repr
 
@@ -467,6 +470,35 @@ def failedRestoreResidue (h : List Ev) : Option String :=
         let elsewhere := (finalStates h).any (fun st => st.1 != srv && st.2.2.take data.length ≠ data)
         let here := (finalStates h).any (fun st => st.1 == srv && st.2.2.take data.length == data)
         if again && elsewhere && here then some s!"unfinished-restore-on-{srv}-came-back-at-its-restart-only-there" else none
+    | _ => none)
+
+/-! ## candidate / follower loop: who gets elected, availability, quiet rejoin -/
+
+/-- C07/C01: a server is never elected while the configuration it was elected under (one that
+    predates its leadership) lists it as a non-voter -/
+def nonVoterNeverElected (h : List Ev) : Option String :=
+  h.findSome? (fun e => match e with
+    | .electedAs srv _ false cfgIdx start true =>
+        if cfgIdx < start then some s!"server-{srv}-was-elected-although-its-configuration-(index-{cfgIdx})-lists-it-as-a-non-voter" else none
+    | _ => none)
+
+/-- C12: with a majority of the voters up, the network calm and three virtual seconds gone by, there
+    is a leader and it accepts a write -/
+def majorityElects (h : List Ev) : Option String :=
+  h.findSome? (fun e => match e with
+    | .majority t stopped false => some s!"no-leader-accepting-writes-with-{stopped}-stopped-at-{t}"
+    | _ => none)
+
+/-- C14: a server that was cut off and reconnects on a calm network does not unseat the leader or
+    move the cluster's term (servers running without pre-vote excepted) -/
+def rejoinQuiet (h : List Ev) : Option String :=
+  -- a member without pre-vote that was cut off earlier raises the term all by itself when it comes
+  -- back: in a mixed cluster a change of term after a rejoin cannot be pinned on the rejoining server
+  let mixed : Bool := h.any (fun e => match e with | .noPreVote _ => true | _ => false)
+  h.findSome? (fun e => match e with
+    | .rejoin srv _ l0 t0 _ l1 t1 =>
+        if mixed then none
+        else if l1 != l0 || t1 != t0 then some s!"reconnecting-server-{srv}-unseated-leader-{l0}-of-term-{t0}-(now-{l1}-term-{t1})" else none
     | _ => none)
 
 end CL
